@@ -126,12 +126,21 @@ def _genseq(draw):
         else:
             m = [x for x in macros if x["tag"] == tag][0]
             sizes.append(sum(m["bfact"] ** lvl for lvl in range(m["levels"])))
-    connects = []
+    connects = []      # [block i, block j, [[node in i, node in j], ...]] - one record may list several pairs
+
+    def pairs(i, j):
+        out = []
+        for _ in range(draw(st.sampled_from([1, 1, 2, 3]))):
+            pr = [draw(st.integers(0, sizes[i] - 1)), draw(st.integers(0, sizes[j] - 1))]
+            if pr not in out:
+                out.append(pr)
+        return out
+
     for i in range(len(seq) - 1):
         if draw(st.integers(0, 4)) > 0:
-            connects.append([i, i + 1, draw(st.integers(0, sizes[i] - 1)), draw(st.integers(0, sizes[i + 1] - 1))])
+            connects.append([i, i + 1, pairs(i, i + 1)])
     if len(seq) > 2 and draw(st.integers(0, 3)) == 0:
-        connects.append([0, len(seq) - 1, draw(st.integers(0, sizes[0] - 1)), draw(st.integers(0, sizes[-1] - 1))])
+        connects.append([0, len(seq) - 1, pairs(0, len(seq) - 1)])
     modf = []
     if draw(st.integers(0, 2)) == 0:
         modf.append([draw(st.integers(0, len(seq) - 1)), "TER"])
@@ -301,7 +310,7 @@ def check_genseq(spec, ctx, ff):
     out = ctx.dir / "seq.json"
     try:
         gen_seq(name="mol", outpath=out, seq=spec["seq"], inpath=inpath, macro_strings=macro_strings,
-                from_file=from_file, connects=[f"{i}:{j}:{a}-{b}" for i, j, a, b in spec["connects"]],
+                from_file=from_file, connects=[f"{i}:{j}:" + ",".join(f"{a}-{b}" for a, b in prs) for i, j, prs in spec["connects"]],
                 modifications=[f"{i}:{rn}" for i, rn in spec["modf"]],
                 tags=[f"{i}:{lab}:{val}-1.0" for i, lab, val in spec["labels"]])
     except Exception as err:
@@ -324,8 +333,9 @@ def check_genseq(spec, ctx, ff):
             edges[frozenset((offsets[idx] + a, offsets[idx] + b))] = None
         names += rns
         seqid += [idx] * len(rns)
-    for i, j, a, b in spec["connects"]:
-        edges[frozenset((offsets[i] + a, offsets[j] + b))] = None
+    for i, j, prs in spec["connects"]:
+        for a, b in prs:
+            edges[frozenset((offsets[i] + a, offsets[j] + b))] = None
     degree = {k: 0 for k in range(len(names))}
     for e in edges:
         for k in e:
@@ -372,6 +382,8 @@ def check_genseq(spec, ctx, ff):
                 raise Violation("genseq_readback:labels", f"node {k} {lab}={meta.nodes[k].get(lab)!r}")
     if spec["connects"]:
         ctx.label("connects")
+    if any(len(prs) > 1 for _, _, prs in spec["connects"]):
+        ctx.label("multi_pair_connect")
     if spec["filemacro"] and "F" in spec["seq"]:
         ctx.label("from_file")
     if spec["modf"]:
